@@ -20,11 +20,27 @@ import (
 	"fmt"
 	"io"
 	"math"
+
+	"seehuhn.de/go/sfnt/glyph"
 )
 
 // Write writes the binary form of a CFF font.
 func (f *Font) Write(w io.Writer) error {
+	if len(f.Glyphs) > 0xFFFF {
+		return invalidSince("too many glyphs")
+	}
 	numGlyphs := uint16(len(f.Glyphs))
+	if f.ROS != nil {
+		// FDSelect stores the index of the private dict in a single byte
+		if len(f.Private) > 256 {
+			return invalidSince("too many private dicts")
+		}
+		for gid := range f.Glyphs {
+			if fd := f.FDSelect(glyph.ID(gid)); fd < 0 || fd >= len(f.Private) {
+				return invalidSince("FDSelect out of range")
+			}
+		}
+	}
 
 	// TODO(voss): this should be done per private dict.
 	charStrings, defWidth, nomWidth, err := f.encodeCharStrings()
